@@ -293,7 +293,7 @@ func genStartupKV(r *Rand, user, db string) [][2]string {
 		kv = append(kv, [2]string{"database", db})
 	}
 	for n := r.Intn(5); n > 0; n-- {
-		switch r.Intn(5) {
+		switch r.Intn(6) {
 		case 0:
 			kv = append(kv, [2]string{"application_name", r.Str(r.Intn(10))})
 		case 1:
@@ -302,6 +302,13 @@ func genStartupKV(r *Rand, user, db string) [][2]string {
 			kv = append(kv, [2]string{"user", r.Ident(4)}) // duplicate: the last one wins
 		case 3:
 			kv = append(kv, [2]string{r.Ident(3), r.Str(r.Range(1, 40))})
+		case 5:
+			// protocol options: unknown ones, also repeated
+			k := "_pq_." + r.Ident(r.Range(1, 4))
+			kv = append(kv, [2]string{k, r.Ident(2)})
+			if r.Bool() {
+				kv = append(kv, [2]string{k, r.Ident(2)})
+			}
 		case 4:
 			// (whatever the client asks for, the server announces UTF8; other
 			// keys that are also server parameters are the client's own business)
